@@ -10,6 +10,7 @@
     in silence, or dribbles bytes.  Oracle: every pynetdicom call returned and every association /
     provider thread is dead and the socket closed within `max(timeouts) x 3 + 1.5 s`.
 """
+from harness import poolinit as _e2e_exit
 import socket
 import threading
 import time
@@ -228,6 +229,84 @@ def requestor_scenario(phase, cut):
                 pass
 
 
+def after_op_scenario(op, exhaust):
+    """pynetdicom requests, completes one DIMSE operation (for the generator calls: iterating to the end, or stopping
+    at the final response as user code commonly does) and then does nothing; the peer (a pynetdicom acceptor without
+    network timeout) stays silent with the connection open.  The requestor's own network timeout must end it."""
+    from harness import e2e
+    from pydicom.dataset import Dataset
+    from pynetdicom import AE, evt
+    from pynetdicom.sop_class import (
+        CTImageStorage, PatientRootQueryRetrieveInformationModelFind, PatientRootQueryRetrieveInformationModelGet,
+        PatientRootQueryRetrieveInformationModelMove, Verification,
+    )
+
+    e2e.quiet()
+    FIND, GET, MOVE = (PatientRootQueryRetrieveInformationModelFind, PatientRootQueryRetrieveInformationModelGet,
+                       PatientRootQueryRetrieveInformationModelMove)
+
+    def on_find(event):
+        ds = Dataset()
+        ds.QueryRetrieveLevel = "PATIENT"
+        ds.PatientID = "1"
+        yield 0xFF00, ds
+
+    def on_get(event):
+        yield 0
+
+    def on_move(event):
+        yield ("127.0.0.1", 1)
+        yield 0
+
+    srv_ae = AE(ae_title="SILENT")
+    for cx in (Verification, FIND, GET, MOVE, CTImageStorage):
+        srv_ae.add_supported_context(cx)
+    srv_ae.acse_timeout = srv_ae.dimse_timeout = 10
+    srv_ae.network_timeout = None
+    srv = srv_ae.start_server(("127.0.0.1", 0), block=False, evt_handlers=[
+        (evt.EVT_C_ECHO, lambda e: 0), (evt.EVT_C_FIND, on_find), (evt.EVT_C_GET, on_get), (evt.EVT_C_MOVE, on_move)])
+    ae = AE()
+    for cx in (Verification, FIND, GET, MOVE):
+        ae.add_requested_context(cx)
+    ae.acse_timeout = ae.dimse_timeout = ae.network_timeout = ae.connection_timeout = T
+    out = {"role": "requestor"}
+    t0 = time.monotonic()
+    try:
+        assoc = ae.associate("127.0.0.1", srv.socket.getsockname()[1])
+        out["associate_took"] = time.monotonic() - t0
+        if not assoc.is_established:
+            return {"harness_error": "association with the silent acceptor not established"}
+        q = Dataset()
+        q.QueryRetrieveLevel = "PATIENT"
+        q.PatientID = "*"
+        t1 = time.monotonic()
+        if op == "echo":
+            assoc.send_c_echo()
+        else:
+            gen = {"find": lambda: assoc.send_c_find(q, FIND), "get": lambda: assoc.send_c_get(q, GET),
+                   "move": lambda: assoc.send_c_move(q, "DEST", MOVE)}[op]()
+            seen = []
+            for status, _ in gen:
+                seen.append(getattr(status, "Status", None) if status else None)
+                if not exhaust and seen[-1] is not None and seen[-1] not in (0xFF00, 0xFF01):
+                    break  # stop at the final response, generator not exhausted
+            out["statuses"] = seen
+        out["call_took"] = time.monotonic() - t1
+        # now nothing: the silent peer keeps the connection open
+        limit = time.monotonic() + 3 * T + 1.5
+        while time.monotonic() < limit and (assoc.is_alive() or assoc.dul.is_alive()):
+            time.sleep(0.02)
+        out["leaks"] = [n for n, alive in (("Association", assoc.is_alive()), ("DULServiceProvider", assoc.dul.is_alive())) if alive]
+        out["ended"] = [assoc.is_aborted, assoc.is_released]
+        out["took"] = time.monotonic() - t0
+        return out
+    finally:
+        try:
+            srv.shutdown()
+        except Exception:
+            pass
+
+
 def tls_scenario(kind):
     """pynetdicom accepts TLS connections; a raw TCP peer connects and then stalls before / part-way through the TLS
     handshake (which `AssociationServer.get_request` performs on the server's accept thread).
@@ -306,6 +385,8 @@ def _job(args):
                 box["r"] = tls_scenario(args[1])
             elif args[0] == "acc":
                 box["r"] = acceptor_scenario(*args[1:])
+            elif args[0] == "after":
+                box["r"] = after_op_scenario(*args[1:])
             else:
                 box["r"] = requestor_scenario(*args[1:])
         except Exception:
@@ -338,6 +419,8 @@ def scenarios(ctx):
     ac_cuts = [1, 6, 7, 40, len(B["ac"]) - 1] if ctx.quick else list(range(1, len(B["ac"]), 3))
     sc += [("req", "ac", c) for c in ac_cuts]
     sc += [("req", "echo-partial", c) for c in ((1, 6, 7, 20) if ctx.quick else range(1, len(B["echo_rq"]), 2))]
+    # the operation completes, the user does nothing more, the peer stays silent: the idle timeout must end it
+    sc += [("after", "echo", True)] + [("after", op, ex) for op in ("find", "get", "move") for ex in (True, False)]
     return sc
 
 
@@ -373,7 +456,7 @@ def run(ctx):
             ctx.fail("recv-with-timeout-blocked", f"recv({need}) with timeout still blocked: {case}", case)
     # (2)
     jobs = scenarios(ctx)
-    pool = mp.get_context("fork").Pool(processes=12, maxtasksperchild=8)
+    pool = mp.get_context("fork").Pool(processes=12, maxtasksperchild=8, initializer=_e2e_exit.no_join_at_exit)
     try:
         results = pool.map(_job, jobs, chunksize=1)
     finally:
@@ -392,7 +475,7 @@ def run(ctx):
     # processes) competed for the CPU does not: scenarios that look bad are run once more, alone
     redo = [i for i, (job, r) in enumerate(zip(jobs, results)) if suspicious(job, r)]
     if redo:
-        pool = mp.get_context("fork").Pool(processes=1, maxtasksperchild=1)
+        pool = mp.get_context("fork").Pool(processes=1, maxtasksperchild=1, initializer=_e2e_exit.no_join_at_exit)
         try:
             for i in redo[:30]:
                 results[i] = pool.apply(_job, (jobs[i],))
@@ -414,7 +497,8 @@ def run(ctx):
                     f"(bound {bound:.1f} s)", case)
             continue
         dribble = job[0] == "acc" and job[3] > 0
-        ctx.case(case, nontrivial=job[1] in ("rq", "pdata", "msg", "release", "ac", "echo-partial"), kind=f"{job[0]}:{job[1]}" + (":dribble" if dribble else ""))
+        ctx.case(case, nontrivial=job[0] == "after" or job[1] in ("rq", "pdata", "msg", "release", "ac", "echo-partial"),
+                 kind=f"{job[0]}:{job[1]}" + (":dribble" if dribble else "") + ((":exhausted" if job[2] else ":stopped-at-final") if job[0] == "after" else ""))
         if "harness_error" in r:
             ctx.diff(case, r["harness_error"], "n/a", "scenario harness failed")
             continue
